@@ -391,6 +391,17 @@ class FailingList(list):
       yield self[i]
 
 
+class DefaultObj:
+  """A parameter default that is an opaque object (compared by identity)."""
+  _fsim_plain = True
+
+  def __init__(self):
+    self.what = 'default-object'
+
+
+DEFAULT_OBJ = DefaultObj()
+
+
 class ConstObj:
   """An opaque constant registered with register_constant (by identity)."""
 
